@@ -119,4 +119,17 @@ func init() {
 			{"design change: Put of a present key appends without removing", [][2]string{{put, "THEN Tail(order) \\o <<k>> ELSE order \\o <<k>>"}}, "IndInit", "IndStep", "1", false},
 		})
 	})
+	// lcind: the line cache design of spec/LineCache.tla (C13, first half) with line contents abstracted
+	// to versions (spec/LineCacheInd.tla).
+	register("lcind", func(r *Reporter) {
+		runInductive(r, "LineCacheInd", []indVariant{
+			{"Init => IndInv /\\ Step", nil, "Init", "IndStep", "0", true},
+			{"IndInv /\\ Next => (IndInv /\\ Step)'", nil, "IndInit", "IndStep", "1", true},
+			{"probe: IndInit admits a pending victim", nil, "IndInit", "ProbeNotOver", "0", false},
+			{"probe: a Push displaces a line", nil, "IndInit", "ProbeNoDisplace", "1", false},
+			{"design change: Push displaces the most recently used line", [][2]string{{"\\o SubSeq(lines, 1, NumLines - 1)", "\\o SubSeq(lines, 2, NumLines)"}}, "IndInit", "IndStep", "1", false},
+			{"design change: Write leaves the resident copy stale", [][2]string{{"lines' = [lines EXCEPT ![i] = [base |-> b, ver |-> ctr]]", "lines' = lines"}}, "IndInit", "IndStep", "1", false},
+			{"design change: a hit does not make the line most recent", [][2]string{{"lines' = <<lines[i]>> \\o Without(b)", "lines' = lines"}}, "IndInit", "IndStep", "1", false},
+		})
+	})
 }
